@@ -1,7 +1,7 @@
 """C02 - stream energy balance: enthalpy is conserved and invertible in temperature."""
 import random
 
-from harness import tlc
+from harness import par, tlc
 from harness.drivers import energy as de
 
 ASSUME = [
@@ -24,6 +24,44 @@ def key_of(step, clause, pre):
     return 'Energy:%s:%s:%s' % (step['op'], extra, clause)
 
 
+def world_history(seed, k):
+    """one world: random contents in four slots, 14 operations; state-shaping steps split the history into traces"""
+    rng = random.Random(seed)
+    traces = []
+    w = de.World()
+    for n in w.names:
+        w.feed(n, rng)
+    init = w.project()
+    steps = []
+    last_mix = None
+    seg = 0
+    for _ in range(14):
+        u = rng.random()
+        if u < 0.2:
+            # state shaping (not judged): re-feed a slot, or make one slot a part of another and separate it out next;
+            # the history continues as a new trace from the logged state
+            if steps:
+                traces.append(dict(id='E%d_%d' % (k, seg), mode='seq', init=init, steps=steps))
+                seg += 1
+            x, y = rng.sample(w.names, 2)
+            part = u < 0.12 and w.feed_part(y, x, rng)
+            if not part:
+                w.feed(x, rng)
+            init, steps, last_mix = w.project(), [], None
+            if part:
+                a = dict(x=x, y=y, reach=w.sep_reach(x, y))
+                obs = w.apply('separate', a)
+                steps.append(dict(op='separate', a=a, post=w.project(), obs=obs))
+            continue
+        op, a = de.random_op(rng, w, last_mix=last_mix)
+        last_mix = (a['r'], a['ins']) if op == 'mix' and a['r'] not in a['ins'] else None
+        obs = w.apply(op, a)
+        steps.append(dict(op=op, a=a, post=w.project(), obs=obs))
+    if steps:
+        traces.append(dict(id='E%d_%d' % (k, seg), mode='seq', init=init, steps=steps))
+    return traces
+
+
 def run(ctx):
     rng = random.Random(ctx.seed)
     quick = ctx.quick
@@ -33,39 +71,7 @@ def run(ctx):
     elif not r.ok:
         raise tlc.MachineryError(r.out[-3000:])
     ctx.note('MC Energy ledger: %d distinct states, %d transitions' % (r.distinct, r.generated))
-    traces = []
-    for k in range(120 if quick else 3000):
-        w = de.World()
-        for n in w.names:
-            w.feed(n, rng)
-        init = w.project()
-        steps = []
-        last_mix = None
-        seg = 0
-        for _ in range(14):
-            u = rng.random()
-            if u < 0.2:
-                # state shaping (not judged): re-feed a slot, or make one slot a part of another and separate it out next;
-                # the history continues as a new trace from the logged state
-                if steps:
-                    traces.append(dict(id='E%d_%d' % (k, seg), mode='seq', init=init, steps=steps))
-                    seg += 1
-                x, y = rng.sample(w.names, 2)
-                part = u < 0.12 and w.feed_part(y, x, rng)
-                if not part:
-                    w.feed(x, rng)
-                init, steps, last_mix = w.project(), [], None
-                if part:
-                    a = dict(x=x, y=y, reach=w.sep_reach(x, y))
-                    obs = w.apply('separate', a)
-                    steps.append(dict(op='separate', a=a, post=w.project(), obs=obs))
-                continue
-            op, a = de.random_op(rng, w, last_mix=last_mix)
-            last_mix = (a['r'], a['ins']) if op == 'mix' and a['r'] not in a['ins'] else None
-            obs = w.apply(op, a)
-            steps.append(dict(op=op, a=a, post=w.project(), obs=obs))
-        if steps:
-            traces.append(dict(id='E%d_%d' % (k, seg), mode='seq', init=init, steps=steps))
+    traces = [tr for lst in par.pmap(world_history, [('%d:%d' % (ctx.seed, k), k) for k in range(120 if quick else 3000)]) for tr in lst]
     defs, cfgc = de.tla_constants()
     stats = dict(ok=0, ooc=0, ops={})
     todo = traces
